@@ -158,6 +158,19 @@ class NpProxy:
     def allclose(self, a, b, *args, **kw):
         return self._pred("allclose", a, b)
 
+    def isclose(self, a, b, *args, **kw):
+        """elementwise tolerance test: one uninterpreted decision per cell (concrete cells are decided by numpy)"""
+        if not (_has_sym(a) or _has_sym(b)):
+            return _np.isclose(a, b, *args, **kw)
+        av = a.values if hasattr(a, "values") and hasattr(a, "index") else a
+        bv = b.values if hasattr(b, "values") and hasattr(b, "index") else b
+        A, B = _np.broadcast_arrays(_np.asarray(av, dtype=object), _np.asarray(bv, dtype=object))
+        out = _np.empty(A.shape, dtype=bool)
+        fo = out.reshape(-1)
+        for i, (x, y) in enumerate(zip(A.reshape(-1), B.reshape(-1))):
+            fo[i] = bool(self._pred("isclose", _np.asarray([x], dtype=object), _np.asarray([y], dtype=object)))
+        return out if out.shape else bool(out)
+
     def array_equal(self, a, b, *args, **kw):
         return self._pred("array_equal", a, b)
 
